@@ -374,22 +374,23 @@ Record plan := mkPlan { pl_constraints : list constr; pl_clocks : list ((path * 
    the constraint file lists iter_port_constraints_bits over the design's ports and the port clock constraints
    (of ALL requested ports, buffered or not). *)
 Definition strip_attrs (c : constr) : constr := mkC (c_port c) (c_bit c) (c_pin c) [].
+Definition sys_reqs (dclk drst : option Z) : list req :=
+  match dclk with
+  | None => []
+  | Some c => mkReq c 0 DDash XNone :: match drst with Some r => [mkReq r 0 DDash XNone] | None => [] end
+  end.
+Fixpoint sys_go (t : table) (cm : connmap) (ex : list req) (st : state) (vals : list value) : err + (state * list value) :=
+  match ex with
+  | [] => inr (st, vals)
+  | q :: r => match request t cm st q with
+              | (_, Error e) => inl e
+              | (st', Ok v) => sys_go t cm r st' (vals ++ [v])
+              end
+  end.
 Definition build (v : vendor) (t : table) (cm : connmap) (hist : list req) (dclk drst : option Z)
            (unused : list path) : list (req * result) * (err + plan) :=
   let acc := run t cm hist in
-  let extra := match dclk with
-               | None => []
-               | Some c => mkReq c 0 DDash XNone :: match drst with Some r => [mkReq r 0 DDash XNone] | None => [] end
-               end in
-  let fix go (ex : list req) (st : state) (vals : list value) : err + (state * list value) :=
-      match ex with
-      | [] => inr (st, vals)
-      | q :: r => match request t cm st q with
-                  | (_, Error e) => inl e
-                  | (st', Ok v) => go r st' (vals ++ [v])
-                  end
-      end in
-  match go extra (fst acc) [] with
+  match sys_go t cm (sys_reqs dclk drst) (fst acc) [] with
   | inl e => (snd acc, inl e)
   | inr (st, sysvals) =>
     let designed := filter (fun l => negb (path_mem (pt_path (lv_port l)) unused))
